@@ -131,7 +131,7 @@ def run(rep, tier):
                     step = si
                     break
             op = e["prog"][step]["op"] if step is not None else "?"
-            key = "ckks:%s:%s" % (kind, op)
+            key = "ckks:%s:%s fam=%s" % (kind, op, "fft64" if e["be"] < 2 else "ntt120")
             if key in seen_c:
                 continue
             seen_c.add(key)
@@ -140,6 +140,49 @@ def run(rep, tier):
         rep.extra.setdefault("corpora", []).append({"corpus": "ckks programs %s (exact scratch)" % cfg, "programs": len(ev), "scratch_calls": ncalls, "programs_taking_scratch": ntakes})
         log("[C12] ckks %s: %d programs, %d steps in exact-size windows on 2 fills, %d rejected" % (cfg, len(ev), ncalls, len(cbad)))
         cev_all += ev
+    # 2e. poulpy-bin-fhe: key generation, key preparation, blind rotation and circuit bootstrapping (Gen_BinScr: back-ends, ranks,
+    #     extension factors, block sizes, optional GLWE switch of the BDD key, layout variants) in exact-size windows, two fills
+    gb = common.tlc("Mem/Gen_BinScr", cfg="Mem/Gen_BinScr_quick" if quick else "Mem/Gen_BinScr_thorough", workers=2, wd=wd, timeout=900)
+    common.tlc_must(gb, "Gen_BinScr")
+    bdesc = [json.loads(json.loads(x)) for x in gb.printed("DESC")]
+    if not gb.ok or len(bdesc) != gb.distinct - 1 or not bdesc:
+        raise ToolError("Gen_BinScr did not complete:\n" + gb.out[-1500:])
+    rep.add_tlc(gb, "gen:binscr")
+    bdesc.sort(key=lambda x: json.dumps(x, sort_keys=True))
+    for i, x in enumerate(bdesc):
+        x["id"] = i + 1
+    bdp, bep = os.path.join(wd, "binscr.descs.ndjson"), os.path.join(wd, "binscr.events.ndjson")
+    common.write_ndjson(bdp, bdesc)
+    hp = common.harness(["binscr", bdp, bep], timeout=3600)
+    if hp.returncode != 0:
+        raise ToolError("harness binscr failed rc=%d\n%s" % (hp.returncode, hp.stdout[-3000:]))
+    bev = common.read_ndjson(bep)
+    bbad, bt = scrpairs("binscr", bep, len(bev))
+    ncalls = sum(len(r_["calls"]) for e in bev for r_ in e["scr"])
+    total += ncalls
+    rep.evaluations += ncalls
+    rep.distinct += len(bev)
+    rep.traces += len(bev)
+    # a panic in an exact-size window that is not a refused take (e.g. an internal `scratch.available() >= ..` assertion) is a scratch failure as well
+    bset = {(k, kind) for k, kind in bbad}
+    for k, e in enumerate(bev):
+        if any(r_["digests"][0][0] != "ok" for r_ in e["scr"]) and (k + 1, "scr") not in bset:
+            bbad.append([k + 1, "scr"])
+    seen_b = set()
+    for k, kind in bbad:
+        e = bev[k - 1]
+        key = "binscr:%s:%s" % (kind, e["op"])
+        if key in seen_b:
+            continue
+        seen_b.add(key)
+        st = e["scr"][0]["digests"][0][0]
+        rep.violation(key, "bin-fhe operation %s in a window of exactly its declared scratch rejected (%s): %s" % (e["op"], kind, st[:120]),
+                      {"descriptor": {x: e[x] for x in e if x != "scr"}, "calls": [r_["calls"] for r_ in e["scr"]], "outcome": [r_["digests"] for r_ in e["scr"]]})
+    byop = {}
+    for e in bev:
+        byop[e["op"]] = byop.get(e["op"], 0) + 1
+    rep.extra.setdefault("corpora", []).append({"corpus": "bin-fhe (exact scratch)", "behaviours": len(bev), "by_operation": byop, "scratch_calls": ncalls, "behaviours_taking_scratch": bt})
+    log("[C12] bin-fhe: %d behaviours in exact-size windows on 2 fills, %d rejected" % (len(bev), len(bbad)))
     # 3. monotonicity of the shape-parameterised size queries
     tb = os.path.join(wd, "tmpbytes.ndjson")
     rowsall = []
@@ -163,5 +206,5 @@ def run(rep, tier):
     rep.rule = ("every scratch-taking HAL call of the c09/c07/c08 corpora run in a canary-guarded window of exactly the number of bytes its companion query returns, on 4 back-ends x 2 "
                 "scratch fills; hook H4 logs every take and Scratch.tla replays the log (arena discipline, no failed take, high-water <= declared); results must not depend on the "
                 "scratch fill; size queries checked monotone over a grid; distinct = events that take scratch")
-    rep.assumptions += ["HAL layer plus the core key-switching / automorphism / trace / packing / LWE conversion / external product / CMux pairs (with their key generation and preparation calls); the CKKS evaluator's (operation, size query) pairs through whole programs; bin-fhe: word operations, preparation and retrieval only",
+    rep.assumptions += ["HAL layer plus the core key-switching / automorphism / trace / packing / LWE conversion / external product / CMux pairs (with their key generation and preparation calls); the CKKS evaluator's (operation, size query) pairs through whole programs; bin-fhe: key generation / preparation, blind rotation, circuit bootstrapping (small shapes, N = 16) besides the word operations, preparation and retrieval of C15 / C20",
                         "window base is 64-byte aligned as ScratchOwned::alloc guarantees"]
